@@ -79,6 +79,31 @@ macro_rules! dispatch {
     }};
 }
 
+#[cfg(cfavml_verif)]
+#[doc(hidden)]
+/// Verification hook (only with `--cfg cfavml_verif`): lets a test harness mask CPU features off so that
+/// every dispatch outcome can be exercised on one host.  A mask can only remove features.
+pub mod verif_hook {
+    use core::sync::atomic::{AtomicU32, Ordering};
+
+    pub const AVX512: u32 = 1;
+    pub const AVX2: u32 = 2;
+    pub const FMA: u32 = 4;
+    pub const NEON: u32 = 8;
+
+    static MASK: AtomicU32 = AtomicU32::new(0);
+
+    /// Bits set in `mask` are reported as unavailable.
+    pub fn set_mask(mask: u32) {
+        MASK.store(mask, Ordering::SeqCst);
+    }
+
+    #[inline]
+    pub fn masked(bit: u32) -> bool {
+        MASK.load(Ordering::SeqCst) & bit != 0
+    }
+}
+
 #[cfg(all(any(target_arch = "x86", target_arch = "x86_64"), feature = "nightly"))]
 #[inline(always)]
 /// Returns if AVX512 is available to the system.
@@ -86,6 +111,11 @@ macro_rules! dispatch {
 /// If this is compiling for a no std target, this selection is done
 /// at compile time only.
 pub fn is_avx512_available() -> bool {
+    #[cfg(cfavml_verif)]
+    if verif_hook::masked(verif_hook::AVX512) {
+        return false;
+    }
+
     if cfg!(target_feature = "avx512f") {
         return true;
     }
@@ -105,6 +135,11 @@ pub fn is_avx512_available() -> bool {
 /// If this is compiling for a no std target, this selection is done
 /// at compile time only.
 pub fn is_avx2_available() -> bool {
+    #[cfg(cfavml_verif)]
+    if verif_hook::masked(verif_hook::AVX2) {
+        return false;
+    }
+
     if cfg!(target_feature = "avx2") {
         return true;
     }
@@ -124,6 +159,11 @@ pub fn is_avx2_available() -> bool {
 /// If this is compiling for a no std target, this selection is done
 /// at compile time only.
 pub fn is_fma_available() -> bool {
+    #[cfg(cfavml_verif)]
+    if verif_hook::masked(verif_hook::FMA) {
+        return false;
+    }
+
     if cfg!(target_feature = "fma") {
         return true;
     }
@@ -143,6 +183,11 @@ pub fn is_fma_available() -> bool {
 /// If this is compiling for a no std target, this selection is done
 /// at compile time only.
 pub fn is_neon_available() -> bool {
+    #[cfg(cfavml_verif)]
+    if verif_hook::masked(verif_hook::NEON) {
+        return false;
+    }
+
     if cfg!(target_feature = "neon") {
         return true;
     }
